@@ -11,7 +11,7 @@
 (* Each (schema, value) pair is one initial state, so the evaluation is     *)
 (* spread over all TLC workers.                                            *)
 (***************************************************************************)
-EXTENDS Wire, Schema
+EXTENDS Hostile, Schema
 
 CONSTANT Depth      \* 0: rich top-level values
 
@@ -100,6 +100,9 @@ W3B == IsIntLike(S) =>
         \* classes of the other signedness are refused (fixints above 127 for unsigned)
         /\ \A p \in ClassPrefixes(~S.s) : ~Dec(S, SrcOf(<<p, 1, 1, 1, 1, 1, 1, 1, 1>>), 0, Inf).ok
         /\ S.s = FALSE => ~Dec(S, SrcOf(<<200>>), 0, Inf).ok
+\* the field-numbering encoder of Hostile.tla without a mutation is the encoder of Wire.tla
+EncMFaithfulB == EncM(S, v, MCtx(Refs, NoMut), 1, 1).b = Bytes0
+EncMFaithful == Live => EncMFaithfulB
 W1 == Live => W1B
 W2 == Live => W2B
 W4b == Live => W4bB
